@@ -303,7 +303,8 @@ def service_level(rep, tier, r, known, Recorder, viol):
       elif u < 0.75:
         act = [t['id'] for t in trials if t['state'] in ('ACTIVE', 'STOPPING')]
         if act:
-          apply(serv, holder, ('CompleteTrial', 1, 1, r.choice(act), [(1, r.randrange(4))], r.random() < 0.2))
+          inf = r.random() < 0.3
+          apply(serv, holder, ('CompleteTrial', 1, 1, r.choice(act), [] if inf and r.random() < 0.6 else [(1, r.randrange(4))], inf))
       elif u < 0.85:
         st_ = r.choice(['REQUESTED', 'SUCCEEDED'])
         apply(serv, holder, ('CreateTrial', 1, 1, 50, st_, [], [(1, 1)] if st_ == 'SUCCEEDED' else []))
